@@ -1,2 +1,266 @@
-From AB Require Import Editor.
-Theorem C16_placeholder : True. Proof. exact I. Qed.
+(* C16 - "The editor writes exactly the edited files, exactly, and nothing else".
+
+   Every theorem is about Editor.v (a statement-by-statement model of editor.py) for an ARBITRARY world W:
+   any parser/printer/include extractor, any glob, any normpath/dirname/join/pathlib/abspath functions,
+   either newline mode, with or without the makedirs guard; any file system, any include graph, any
+   root spelling, any body.  [completed ... texts files files' fs' tr] = the block was entered with the
+   dict `files` (texts read: `texts`), its body returned leaving `files'`, and the exit code ran to the
+   end giving the disk fs' and the list tr of file-system calls.  [alias_free] = no two keys that are
+   unlinked or kept denote the same file (NoDup after canon): the editor identifies files by the
+   normalised spelling, so this is as far as "any way of spelling the path" can go.
+
+   PARTIAL with respect to the property text, and why:
+   - "contains exactly the printed model ... carriage returns as they were on disk" holds only when files
+     are opened with newline='' (w_translate = false): C16_every_entry_printed_exactly.  For the code as it
+     is on the unrepaired tree (newline=None) it is false: C16_crlf_refuted.
+   - "this holds for any way of spelling the path" needs the guard on os.makedirs; without it a bare
+     spelling makes a completed block raise and drop every edit: C16_bare_path_refuted.
+   - that only reachable paths are visited (the converse of C16_each_once's closure) is not proved; the
+     visit-once monitor and the correspondence (yielded keys, read trace) check it on every run.
+   - parse/print/glob/path functions are Section variables: no law is assumed except print_parse (C01),
+     stated where used.  *)
+From AB Require Import Prelude Editor EditorProofs EditorRun.
+
+Theorem C16_each_once : forall W fuel fs root tr texts files,
+  bfs W fuel fs [normpath W root] [] [] = (tr, EOk (texts, files)) ->
+  tr = map OpRead (keys files) /\ NoDup (keys files) /\ keys texts = keys files /\
+  In (normpath W root) (keys files) /\ includes_closed W files (keys files) /\
+  Forall2 (entry_ok W fs) texts files.
+Proof. exact visits_each_once. Qed.
+
+Theorem C16_terminates_on_cycles : forall W (U : list path) fuel fs root,
+  In (normpath W root) U ->
+  (forall k text m ps, In k U -> fs_read W fs k = Some text -> parse W text = Some m ->
+     include_paths W k m = EOk ps -> forall p, In p ps -> In p U) ->
+  (length U < fuel)%nat ->
+  snd (bfs W fuel fs [normpath W root] [] []) <> EErr EOutOfFuel.
+Proof. exact read_phase_terminates. Qed.
+
+Theorem C16_raise_no_write : forall W fuel fs root body fs' tr r,
+  edit_file_recursive W fuel fs root body = (fs', tr, r) ->
+  (forall files, body files = None) ->
+  fs' = fs /\ forallb is_read tr = true /\ exists e, r = EErr e.
+Proof. exact raise_touches_nothing. Qed.
+
+Theorem C16_failed_entry_no_write : forall W fuel fs root body tr e,
+  bfs W fuel fs [normpath W root] [] [] = (tr, EErr e) ->
+  edit_file_recursive W fuel fs root body = (fs, tr, EErr e) /\ forallb is_read tr = true.
+Proof. exact failed_entry_touches_nothing. Qed.
+
+Theorem C16_completed_calls_exactly : forall W fuel fs root body texts files files' fs' tr,
+  completed W fuel fs root body texts files files' fs' tr ->
+  alias_free W texts files' ->
+  tr = map OpRead (keys files) ++ map OpUnlink (removed_keys W texts files') ++ write_ops W texts files' /\
+  (forall k, In k (removed_keys W texts files') -> content fs' (canon W k) = None) /\
+  (forall k m, In (k, m) files' ->
+     content fs' (canon W k) = if will_write W texts (k, m) then Some (print W m) else content fs (canon W k)) /\
+  (forall c, ~ In c (map (canon W) (removed_keys W texts files' ++ written_keys W texts files')) ->
+     content fs' c = content fs c).
+Proof. exact completed_spec. Qed.
+
+Theorem C16_unchanged_not_written : forall W fuel fs root body texts files files' fs' tr k m,
+  completed W fuel fs root body texts files files' fs' tr -> alias_free W texts files' ->
+  (forall t m0, parse W t = Some m0 -> print W m0 = t) ->
+  In (k, m) files -> In (k, m) files' ->
+  content fs' (canon W k) = content fs (canon W k) /\
+  (forall k', In (OpWrite k') tr -> canon W k' <> canon W k) /\ ~ In (OpUnlink k) tr.
+Proof. exact unchanged_not_written. Qed.
+
+Theorem C16_changed_exact : forall W fuel fs root body texts files files' fs' tr k m t,
+  completed W fuel fs root body texts files files' fs' tr -> alias_free W texts files' ->
+  In (k, m) files' -> lookup k texts = Some t -> print W m <> t ->
+  content fs' (canon W k) = Some (print W m).
+Proof. exact changed_exact. Qed.
+
+Theorem C16_every_entry_printed_exactly : forall W fuel fs root body texts files files' fs' tr k m,
+  completed W fuel fs root body texts files files' fs' tr -> alias_free W texts files' ->
+  w_translate W = false ->
+  In (k, m) files' -> content fs' (canon W k) = Some (print W m).
+Proof. exact every_entry_printed_exactly. Qed.
+
+Theorem C16_texts_are_disk_bytes : forall W fuel fs root tr texts files k t,
+  bfs W fuel fs [normpath W root] [] [] = (tr, EOk (texts, files)) -> w_translate W = false ->
+  lookup k texts = Some t -> content fs (canon W k) = Some t.
+Proof. exact texts_are_disk_bytes. Qed.
+
+Theorem C16_removed_unlinked : forall W fuel fs root body texts files files' fs' tr k,
+  completed W fuel fs root body texts files files' fs' tr -> alias_free W texts files' ->
+  In k (keys files) -> ~ In k (keys files') ->
+  content fs' (canon W k) = None /\ In (OpUnlink k) tr.
+Proof. exact removed_unlinked. Qed.
+
+Theorem C16_added_created : forall W fuel fs root body texts files files' fs' tr k m,
+  completed W fuel fs root body texts files files' fs' tr -> alias_free W texts files' ->
+  In (k, m) files' -> ~ In k (keys files) ->
+  content fs' (canon W k) = Some (print W m) /\ In (OpWrite k) tr.
+Proof. exact added_created. Qed.
+
+Theorem C16_nothing_else_touched : forall W fuel fs root body texts files files' fs' tr c,
+  completed W fuel fs root body texts files files' fs' tr -> alias_free W texts files' ->
+  ~ In c (map (canon W) (removed_keys W texts files' ++ written_keys W texts files')) ->
+  content fs' c = content fs c.
+Proof. exact nothing_else_touched. Qed.
+
+Theorem C16_bare_key_no_makedirs : forall W k,
+  w_guard W = true -> dirname W k = [] -> mk_ops W k = [].
+Proof. exact bare_key_no_makedirs. Qed.
+
+Theorem C16_edit_file : forall W fs p body fs' tr r,
+  edit_file W fs p body = (fs', tr, r) ->
+  match r with
+  | EErr _ => fs' = fs /\ (forall o, In o tr -> o = OpRead (ppath W p) \/ (o = OpWrite (ppath W p) /\ r = EErr EOSError))
+  | EOk _ => exists text m m', fs_read W fs (ppath W p) = Some text /\ parse W text = Some m /\ body m = Some m' /\
+      if str_eqb (print W m') text then fs' = fs /\ tr = [OpRead (ppath W p)]
+      else tr = [OpRead (ppath W p); OpWrite (ppath W p)] /\
+           content fs' (canon W (ppath W p)) = Some (print W m') /\
+           forall c, c <> canon W (ppath W p) -> content fs' c = content fs c
+  end.
+Proof. exact edit_file_spec. Qed.
+
+Theorem C16_edit_file_raise_no_write : forall W fs p body fs' tr r,
+  edit_file W fs p body = (fs', tr, r) -> (forall m, body m = None) ->
+  fs' = fs /\ forallb is_read tr = true /\ exists e, r = EErr e.
+Proof. exact edit_file_raise_touches_nothing. Qed.
+
+Theorem C16_edit_file_any_spelling : forall W fs p p' body,
+  canon W (ppath W p) = canon W (ppath W p') ->
+  fst (fst (edit_file W fs p body)) = fst (fst (edit_file W fs p' body)) /\
+  snd (edit_file W fs p body) = snd (edit_file W fs p' body).
+Proof. exact edit_file_spelling. Qed.
+
+(* ---- non-vacuity: the hypotheses hold on a concrete run (EditorRun.ex_case: bare root "m", a CRLF file,
+        a cycle m -> m, a diamond m -> a -> b <- m; m edited, a untouched, b removed, n added) ---------- *)
+From Coq Require Import String.
+Example ex_completed : forall t g, g = true ->
+  completed (ex_W t g) ex_fuel ex_fs ex_root (ex_body t g) (ex_texts t g) (ex_files t g) (ex_files' t g)
+            (ex_fs' t g) (ex_tr t g).
+Proof.
+  intros t g G. subst g. exists (fst (ex_bfs t true)), (skipn 3 (ex_tr t true)).
+  destruct t; repeat split; vm_compute; reflexivity.
+Qed.
+Example ex_alias_free : forall t g, alias_free (ex_W t g) (ex_texts t g) (ex_files' t g).
+Proof. intros t g. apply nodupb_sound. destruct t, g; vm_compute; reflexivity. Qed.
+Example ex_print_parse : forall t g u m0, parse (ex_W t g) u = Some m0 -> print (ex_W t g) m0 = u.
+Proof. intros t g u m0. cbn. intro H. inversion H. reflexivity. Qed.
+
+Example C16_each_once_ex :
+  fst (ex_bfs false true) = map OpRead (map zs ["m"; "a"; "b"]%string) /\ NoDup (keys (ex_files false true)).
+Proof.
+  destruct (C16_each_once (ex_W false true) ex_fuel ex_fs ex_root (fst (ex_bfs false true))
+              (ex_texts false true) (ex_files false true)) as [A [B _]]; [vm_compute; reflexivity|].
+  split; [exact A | exact B].
+Qed.
+Example C16_terminates_on_cycles_ex : snd (ex_bfs false true) <> EErr EOutOfFuel.
+Proof.
+  apply (C16_terminates_on_cycles (ex_W false true) (map zs ["m"; "a"; "b"]%string)).
+  - vm_compute. auto.
+  - intros k text m ps Ik. vm_compute in Ik. destruct Ik as [E|[E|[E|[]]]]; subst k; vm_compute;
+      intros R P I; inversion R; subst; inversion P; subst; vm_compute in I; inversion I; subst;
+      intros p Ip; vm_compute in Ip; vm_compute; tauto.
+  - vm_compute. lia.
+Qed.
+Example C16_raise_no_write_ex :
+  fst (fst (edit_file_recursive (ex_W false true) ex_fuel ex_fs ex_root (fun _ => None))) = ex_fs.
+Proof.
+  destruct (edit_file_recursive (ex_W false true) ex_fuel ex_fs ex_root (fun _ => None)) as [[f t] r] eqn:E.
+  destruct (C16_raise_no_write _ _ _ _ _ _ _ _ E (fun _ => eq_refl)) as [A _]. exact A.
+Qed.
+Example C16_failed_entry_no_write_ex :   (* /t/x does not exist *)
+  exists tr, edit_file_recursive (ex_W false true) ex_fuel ex_fs (zs "x") (ex_body false true) = (ex_fs, tr, EErr EOSError).
+Proof.
+  eexists. apply (C16_failed_entry_no_write (ex_W false true) ex_fuel ex_fs (zs "x")). vm_compute. reflexivity.
+Qed.
+Example C16_completed_calls_exactly_ex :
+  ex_tr false true = map OpRead (map zs ["m"; "a"; "b"]%string) ++ [OpUnlink (zs "b")] ++ [OpWrite (zs "m"); OpWrite (zs "n")].
+Proof.
+  destruct (C16_completed_calls_exactly _ _ _ _ _ _ _ _ _ _ (ex_completed false true eq_refl) (ex_alias_free false true)) as [A _].
+  rewrite A. vm_compute. reflexivity.
+Qed.
+Example C16_unchanged_not_written_ex :
+  content (ex_fs' false true) (zs "/t/a") = content ex_fs (zs "/t/a") /\ ~ In (OpWrite (zs "a")) (ex_tr false true).
+Proof.
+  destruct (C16_unchanged_not_written (ex_W false true) _ _ _ _ _ _ _ _ _ (zs "a") (zs "B" ++ [NL])
+              (ex_completed false true eq_refl) (ex_alias_free false true) (ex_print_parse false true)) as [A [B _]].
+  - vm_compute. tauto.
+  - vm_compute. tauto.
+  - split; [exact A|]. intro I. exact (B _ I eq_refl).
+Qed.
+Example C16_changed_exact_ex : content (ex_fs' false true) (zs "/t/m") = Some (zs "Z" ++ CRLF).
+Proof.
+  apply (C16_changed_exact (ex_W false true) _ _ _ _ _ _ _ _ _ (zs "m") (zs "Z" ++ CRLF) (zs "A" ++ CRLF)
+           (ex_completed false true eq_refl) (ex_alias_free false true)).
+  - vm_compute. tauto.
+  - vm_compute. reflexivity.
+  - vm_compute. discriminate.
+Qed.
+Example C16_every_entry_printed_exactly_ex : content (ex_fs' false true) (zs "/t/a") = Some (zs "B" ++ [NL]).
+Proof.
+  apply (C16_every_entry_printed_exactly (ex_W false true) _ _ _ _ _ _ _ _ _ (zs "a") (zs "B" ++ [NL])
+           (ex_completed false true eq_refl) (ex_alias_free false true) eq_refl).
+  vm_compute. tauto.
+Qed.
+Example C16_texts_are_disk_bytes_ex : content ex_fs (zs "/t/m") = Some (zs "A" ++ CRLF).
+Proof.
+  apply (C16_texts_are_disk_bytes (ex_W false true) ex_fuel ex_fs ex_root (fst (ex_bfs false true))
+           (ex_texts false true) (ex_files false true) (zs "m")); vm_compute; reflexivity.
+Qed.
+Example C16_removed_unlinked_ex : content (ex_fs' false true) (zs "/t/b") = None.
+Proof.
+  apply (C16_removed_unlinked (ex_W false true) _ _ _ _ _ _ _ _ _ (zs "b") (ex_completed false true eq_refl) (ex_alias_free false true)).
+  - vm_compute. tauto.
+  - vm_compute. intros [E|[E|[E|[]]]]; discriminate.
+Qed.
+Example C16_added_created_ex : content (ex_fs' false true) (zs "/t/n") = Some (zs "N" ++ [NL]).
+Proof.
+  apply (C16_added_created (ex_W false true) _ _ _ _ _ _ _ _ _ (zs "n") (zs "N" ++ [NL]) (ex_completed false true eq_refl) (ex_alias_free false true)).
+  - vm_compute. tauto.
+  - vm_compute. intros [E|[E|[E|[]]]]; discriminate.
+Qed.
+Example C16_nothing_else_touched_ex : content (ex_fs' false true) (zs "/t/a") = content ex_fs (zs "/t/a").
+Proof.
+  apply (C16_nothing_else_touched (ex_W false true) _ _ _ _ _ _ _ _ _ (zs "/t/a") (ex_completed false true eq_refl) (ex_alias_free false true)).
+  vm_compute. intros [E|[E|[E|[]]]]; discriminate.
+Qed.
+Example C16_bare_key_no_makedirs_ex : mk_ops (ex_W false true) (zs "m") = [].
+Proof. apply C16_bare_key_no_makedirs; vm_compute; reflexivity. Qed.
+Example C16_edit_file_any_spelling_ex :
+  fst (fst (edit_file (ex_W false true) ex_fs (zs "m") (fun _ => Some (zs "Q"))))
+  = fst (fst (edit_file (ex_W false true) ex_fs (zs "/t/x/..//./m") (fun _ => Some (zs "Q")))).
+Proof. apply C16_edit_file_any_spelling. vm_compute. reflexivity. Qed.
+
+(* ---- the two statements the unrepaired code refutes ---------------------------------------------- *)
+(* newline=None: the body replaces the first character of m ("A" -> "Z"), everything after it is printed
+   as parsed, and yet the "\r\n" that followed it on disk is gone *)
+Theorem C16_crlf_refuted :
+  exists W fuel fs root body texts files files' fs' tr k c c' rest,
+    w_translate W = true /\ (forall t m0, parse W t = Some m0 -> print W m0 = t) /\
+    completed W fuel fs root body texts files files' fs' tr /\ alias_free W texts files' /\
+    content fs (canon W k) = Some (c :: rest) /\
+    (exists m m' rest_t, In (k, m) files /\ In (k, m') files' /\ print W m = c :: rest_t /\ print W m' = c' :: rest_t) /\
+    content fs' (canon W k) <> Some (c' :: rest).
+Proof.
+  exists (ex_W true true), ex_fuel, ex_fs, ex_root, (ex_body true true), (ex_texts true true), (ex_files true true),
+         (ex_files' true true), (ex_fs' true true), (ex_tr true true), (zs "m"), 65, 90, CRLF.
+  split; [reflexivity|]. split; [exact (ex_print_parse true true)|].
+  split; [exact (ex_completed true true eq_refl)|]. split; [exact (ex_alias_free true true)|].
+  split; [vm_compute; reflexivity|]. split.
+  - exists (zs "A" ++ [NL]), (zs "Z" ++ [NL]), [NL]. vm_compute. tauto.
+  - vm_compute. discriminate.
+Qed.
+
+(* no guard: the root is spelled without a directory part, the body returns normally, and the block ends in
+   OSError at os.makedirs('') with m unedited on disk (b, removed from the dict, is already unlinked) *)
+Theorem C16_bare_path_refuted :
+  exists W fuel fs root body files files' fs' tr,
+    w_guard W = false /\ dirname W (normpath W root) = [] /\
+    snd (bfs W fuel fs [normpath W root] [] []) = EOk (ex_texts false false, files) /\ body files = Some files' /\
+    edit_file_recursive W fuel fs root body = (fs', tr, EErr EOSError) /\
+    In (OpMakedirs []) tr /\
+    (exists m', In (normpath W root, m') files' /\ content fs' (canon W root) <> Some (print W m')).
+Proof.
+  exists (ex_W false false), ex_fuel, ex_fs, ex_root, (ex_body false false), (ex_files false false),
+         (ex_files' false false), (ex_fs' false false), (ex_tr false false).
+  repeat split; try (vm_compute; reflexivity).
+  - vm_compute. tauto.
+  - exists (zs "Z" ++ CRLF). split; [vm_compute; tauto | vm_compute; discriminate].
+Qed.
